@@ -3,6 +3,7 @@
   and the executable `holds` predicates of C12, C13, C14, C15, C20.
 -/
 import SqlairModel.Runtime
+import SqlairModel.GetAllArgs
 
 namespace Sqlair.Rt
 
@@ -152,7 +153,14 @@ def predict (c : Case) : Pred :=
         ({ returns := [renderOpt r.err], stored := r.stored.getD 0,
            outcome := if call.outcome then (match r.outcome with | some (some n) => s!"r:{n}" | _ => "nil") else "" }, w)
       | "getall" =>
-        let (r, w) := queryGetAll s (if c.dests == "none" then 0 else 1) (c.dests.startsWith "valid") w1
+        let args : List SliceArg :=
+          if c.dests == "none" then [] else
+          if c.dests == "nonptr" then [.notPointer] else
+          if c.dests == "nilptr" then [.nilPointer] else
+          if c.dests == "ptrnonslice" then [.ok, .notSlice] else
+          if c.dests == "sliceint" then [.badElem] else
+          if c.dests == "sliceptrint" then [.ok, .badElem] else [.ok]
+        let (r, w) := queryGetAllArgs s args (c.dests.startsWith "valid") w1
         ({ returns := [renderOpt r.err], appended := r.appended }, w)
       | _ =>
         let (it, w) := iterOpen s w1
@@ -273,7 +281,7 @@ def holdsC20 (c : Case) (o : Obs) : Bool :=
      execEvents o == 0 &&
      (if c.op == "iter" then (closeResults c o).all (fun r => r == "ctx" || r == "txDone")
       else (o.returns.headD "") == "ctx" || (o.returns.headD "") == "txDone" ||
-           (o.returns.headD "").startsWith "sqlair:outputs-not-referenced")
+           (o.returns.headD "").startsWith "sqlair:")
    else true) &&
   (if c.ctx == "nil" then o.eventCtx.all (· == "-")
    else if c.ctx == "marker" && c.cancelAt.isNone then o.eventCtx.all (· == "MARK")
